@@ -467,6 +467,14 @@ func (b *Branch) try(ctx context.Context, bs Bindings, against interface{}, prop
 		"against": against,
 	})
 
+	if bs == nil {
+		// A state can come without bindings.  Below, nil
+		// bindings mean "this branch is not followed" (a guard
+		// declined), so don't let absent bindings be taken for
+		// that: absent bindings are empty bindings.
+		bs = NewBindings()
+	}
+
 	var bss []Bindings
 
 	if b.Pattern != nil {
